@@ -2,7 +2,7 @@
 
 Monitors (DESIGN.md section 3, C11):
 
-* (M3/M4) a generated store/export state machine over ``Database``: after every export the file is read
+* (M3/M4) a generated store/export state machine over ``Database`` with several append targets (files and nodes of one file): after every export the file is read
   back with ``Database.from_hdf`` and compared with an independent dictionary model of the history; at the
   end the incrementally appended file(s) are compared with a single full export;
 * design-space files (HDF5 exact, csv/txt to the 16 printed digits), root and nested nodes;
